@@ -315,6 +315,14 @@ def c02_streams(ctx):
             for dd in range(100):
                 t = f"{cc}{dd:02d}{b}"
                 yield from both("iban_new", "spec_iban_accept", [enc(t), "0", "0"], "all-100-pairs", True)
+    # extreme BBANs: the last / first letter or digit wherever the structure admits it (longest numeric expansions)
+    for cc in countries(ctx):
+        row = ctx.facts["iban_rows"][cc]
+        kinds = "".join(k * cnt for cnt, _b, k in parse_structure(row["bban_spec"]))
+        for pick in ({"n": "9", "a": "Z", "c": "Z", "e": " "}, {"n": "0", "a": "A", "c": "A", "e": " "}, {"n": "9", "a": "Z", "c": "9", "e": " "}):
+            b = "".join(pick[k] for k in kinds)
+            yield Case("prop", "spec_from_bban", [enc(cc), enc(b)], "from_bban-extreme", True)
+            yield from both("iban_new", "spec_iban_accept", [enc(cc + iso_digits(cc, b) + b), "0", "0"], "extreme", True)
     # BBANs that begin like an IBAN of their own country (country code and two digits), where the structure allows it;
     # and other two-letter/two-digit heads
     for cc in countries(ctx):
@@ -562,6 +570,18 @@ def variant(ctx, t):
 
 def c10_streams(ctx):
     rng = ctx.rng
+    # texts carrying a label, and texts that merely begin with the letters of one: all white-space / case variants agree
+    labelled = []
+    for cc in rng.sample(countries(ctx), 3 if ctx.quick else 20):
+        v = valid_iban(ctx, cc)
+        labelled += ["IBAN " + v, "IBAN: " + v, "BBAN " + v[4:]]
+    bics = sorted({b[2] for b in ctx.facts["banks"] if b[2] and b[2][:3] in ("BIC", "IBA", "BBA")})
+    for bic in bics[:6] + ["BICKNL2A", "BIC " + random_bic(ctx), "BIC: " + random_bic(ctx, False)]:
+        labelled += [bic, bic[:3] + " " + bic[3:]]
+    for t in labelled:
+        for v2 in (" " + t, t.lower(), t.replace(" ", "\t"), t.replace(" ", "\u00a0"), t.replace(" ", "  "), t[:1] + " " + t[1:],
+                   t.replace(" ", "")):
+            yield Case("prop", "spec_variant_same", [enc(t), enc(v2)], "labelled-variants", True, "member")
     # white space and case in the ARGUMENTS of generate / from_components (the bank-code lookups take their key as it is)
     for cc in (countries(ctx) if not ctx.quick else rng.sample(countries(ctx), 12) + ["GB", "FR", "IT", "ES", "DE"]):
         row = ctx.facts["iban_rows"][cc]
@@ -621,6 +641,12 @@ def c11_streams(ctx):
             v = valid_iban(ctx, cc)
             yield Case("prop", "iban_decomp", [enc(v), names], "iban-decomp", True)
             yield from both("iban_new", "spec_iban_accept", [enc(v), "0", "0"], "iban-valid", True)
+    # BBANs that begin with the letters of their own country code (all West-African ones do), where the structure admits it
+    for cc in countries(ctx):
+        kinds = "".join(k * cnt for cnt, _b, k in parse_structure(ctx.facts["iban_rows"][cc]["bban_spec"]))
+        if len(kinds) > 2 and all(k in "ac" for k in kinds[:2]):
+            b = cc + random_bban(ctx, cc)[2:]
+            yield Case("prop", "iban_decomp", [enc(cc + iso_digits(cc, b) + b), names], "iban-decomp-own-code-head", True)
     # re-assembly from a BBAN OBJECT that belongs to another country (or spells the country differently): the IBAN's own
     # country decides the positions
     bylen = {}
@@ -925,6 +951,17 @@ def c17_streams(ctx):
         for _ in range(2 if ctx.quick else 8):
             vals = [component_values(ctx, cc, k, w[k])[0] if w[k] else "" for k in ("bank_code", "account_code", "branch_code")]
             yield Case("prop", "spec_generate", [enc(cc)] + [enc(v) for v in vals], "algorithm-runs-" + cc, True)
+    # ... also when an IBAN of ANOTHER country with the very same BBAN string was looked up just before
+    bylen = {}
+    for cc in countries(ctx):
+        bylen.setdefault(ctx.facts["iban_rows"][cc]["bban_length"], []).append(cc)
+    coded = [b for b in banks if b[1]]
+    for cc, code, _bic in rng.sample(coded, 60 if ctx.quick else 1500):
+        b = bban_around(ctx, cc, code)
+        others = [c for c in bylen.get(len(b) if b else -1, []) if c != cc]
+        if b and others:
+            yield Case("corr", "iban_bank_lookup", [enc(rng.choice(others)), enc(b)], "reachable-after-twin", True)
+            yield Case("corr", "iban_bank_lookup", [enc(cc), enc(b)], "reachable-after-twin", True)
     # every listed bank can occur in a valid IBAN and is found again from it
     for i in (range(len(banks)) if not ctx.quick else rng.sample(range(len(banks)), 800)):
         cc, code, _bic = banks[i]
@@ -1280,6 +1317,12 @@ def c13_cases(ctx):
                 s, e_ = pos[k]
                 yield cc, rng.choice("10"), {k: b[s:e_] + "7"}, rng.randrange(10 ** 6)
                 yield cc, rng.choice("10"), {k: "-" + b[s:e_][1:]}, rng.randrange(10 ** 6)
+                # the same value typed with full-width / Arabic-Indic digits and accented or full-width capitals
+                fw = "".join(chr(0xFF10 + int(ch)) if ch in DIGITS else chr(0xFF21 + ord(ch) - 65) for ch in b[s:e_])
+                ai = "".join(chr(0x0660 + int(ch)) if ch in DIGITS else {"A": "\u00c4", "E": "\u00c9", "O": "\u00d6"}.get(ch, ch) for ch in b[s:e_])
+                yield cc, rng.choice("10"), {k: fw}, rng.randrange(10 ** 6)
+                if ai != b[s:e_]:
+                    yield cc, rng.choice("10"), {k: ai}, rng.randrange(10 ** 6)
             if cc and not pos:
                 yield cc, "0", {"bank_code": "1"}, rng.randrange(10 ** 6)
 
